@@ -19,6 +19,8 @@ import (
 	"sync"
 	"testing/synctest"
 	"time"
+
+	simrt "github.com/grafana/dskit/zzverifrt"
 )
 
 // Violation describes the first oracle failure of a run.
@@ -87,6 +89,10 @@ type Sim struct {
 	Sample     []string // short decoded description of the run for evidence
 
 	hmu        sync.Mutex
+	actors     map[int64]string
+	rootGoid   int64
+	l2Percent  int
+	l2Salt     uint64
 	cleanups   []func()
 	endElapsed time.Duration
 }
@@ -318,11 +324,10 @@ func (s *Sim) OnEnd(f func()) { s.cleanups = append(s.cleanups, f) }
 // replays: derive them from actor identity and per-actor counters, never from arrival order.
 // If two tasks park under one name the later gets a "#k" suffix in arrival order; worlds avoid that.
 func (s *Sim) Park(name string) {
-	s.mu.Lock()
-	if s.rootActive {
-		s.mu.Unlock()
+	if goid() == s.rootGoid {
 		return
 	}
+	s.mu.Lock()
 	if s.ending {
 		s.mu.Unlock()
 		select {} // durably blocked forever; reclaimed when the worker process exits
@@ -359,6 +364,7 @@ func (s *Sim) Go(name string, f func()) {
 				s.Fail("panic", "", "task %s panicked: %v", name, r)
 			}
 		}()
+		s.NameGoroutine(name)
 		s.Park(name)
 		f()
 	}()
@@ -602,6 +608,91 @@ func (s *Sim) Locked(f func()) {
 	s.hmu.Lock()
 	defer s.hmu.Unlock()
 	f()
+}
+
+// ---------------------------------------------------------------------------------------------
+// L2: lock-point yields (generated copies of dskit files call simrt.Y before every Lock/RLock)
+
+func goid() int64 {
+	var buf [40]byte
+	n := runtime.Stack(buf[:], false)
+	// "goroutine 123 ["
+	var id int64
+	for i := len("goroutine "); i < n && buf[i] >= '0' && buf[i] <= '9'; i++ {
+		id = id*10 + int64(buf[i]-'0')
+	}
+	return id
+}
+
+// EnableL2 turns lock-point yields on for this run. percent is the share of sites that yield
+// (a per-run "buggify subset", chosen by hashing the site with a salt drawn from the choices).
+func (s *Sim) EnableL2(percent int) {
+	s.l2Percent = percent
+	s.l2Salt = uint64(s.Choose(1<<16, "l2-salt"))
+	simrt.Hook = s.yield
+}
+
+// NameGoroutine gives the calling goroutine a stable actor name used in L2 park names.
+func (s *Sim) NameGoroutine(name string) {
+	id := goid()
+	s.mu.Lock()
+	if s.actors == nil {
+		s.actors = map[int64]string{}
+	}
+	s.actors[id] = name
+	s.mu.Unlock()
+}
+
+func (s *Sim) yield(site string) {
+	root := goid() == s.rootGoid
+	s.mu.Lock()
+	ending := s.ending
+	pct, salt := s.l2Percent, s.l2Salt
+	s.mu.Unlock()
+	spin := strings.HasSuffix(site, ".spin")
+	if root {
+		if spin {
+			panic("sim: the root would block on a lock held by a parked task at " + site)
+		}
+		return
+	}
+	if ending {
+		if spin {
+			select {}
+		}
+		return
+	}
+	if !spin && pct < 100 && int(splitmix(strHash(site)^salt)%100) >= pct {
+		return
+	}
+	id := goid()
+	s.mu.Lock()
+	actor := s.actors[id]
+	s.mu.Unlock()
+	if actor == "" {
+		actor = "anon"
+	}
+	_ = id
+	s.ProbeN("l2-yield", 1)
+	s.Park("y:" + actor + "@" + site)
+}
+
+// L2Parked returns the parked tasks that sit at lock-point yields.
+func (s *Sim) L2Parked() []string { return s.ParkedWithPrefix("y:") }
+
+// DrainL2 releases lock-point tasks (in chosen order) until none is parked, so that the root may
+// call into instrumented objects. Tasks parked at L1 seams stay parked.
+func (s *Sim) DrainL2(limit int) {
+	for i := 0; i < limit; i++ {
+		names := s.L2Parked()
+		if len(names) == 0 {
+			return
+		}
+		s.Release(names[s.Choose(len(names), "drain-l2")])
+	}
+	if len(s.L2Parked()) > 0 {
+		panic("sim: lock-point tasks did not drain")
+	}
 }
 
 // Budget reports whether the run may take another step.
